@@ -4,6 +4,7 @@ import (
 	"bytes"
 	"fmt"
 	"os"
+	"path"
 	"path/filepath"
 	"reflect"
 	"strings"
@@ -63,6 +64,23 @@ func (c Case) config(reqs []Req) *project.Config {
 	return cfg
 }
 
+// refCleanPath is the clean form of a requirement path, written independently of the code under
+// test: the cleaned path, plus "@major" unless the major is absent, v0 or v1.
+func refCleanPath(p string) string {
+	major := ""
+	for i := len(p) - 1; i >= 0 && p[i] != '/'; i-- {
+		if p[i] == '@' {
+			p, major = p[:i], p[i+1:]
+			break
+		}
+	}
+	p = path.Clean(p)
+	if major == "" || major == "v0" || major == "v1" {
+		return p
+	}
+	return p + "@" + major
+}
+
 func normalize(c *project.Config) project.Config {
 	out := *c
 	if len(out.Ignore) == 0 {
@@ -101,7 +119,7 @@ func exec(c Case) (v ev.Verdict) {
 	all := append([]string{c.Name, c.Version}, c.Ignore...)
 	for _, r := range append(append([]Req{}, c.Reqs...), c.NewReqs...) {
 		all = append(all, r.Name, r.Path, r.Version)
-		if r.Name == "" || project.CleanPath(r.Path) != r.Path || !semver.IsValid(r.Version) || semver.Canonical(r.Version) != r.Version {
+		if r.Name == "" || refCleanPath(r.Path) != r.Path || !semver.IsValid(r.Version) || semver.Canonical(r.Version) != r.Version {
 			return ev.Verdict{Skip: "requirement-outside-domain"}
 		}
 		if !plain(r.Name) {
@@ -187,7 +205,7 @@ func genString(t *rapid.T, minLen int) string {
 	}
 }
 
-var versions = []string{"v1.0.0", "v0.0.0", "v1.2.3", "v2.0.0", "v10.20.30", "v1.0.0-alpha", "v1.0.0-alpha.1", "v1.0.0-0.3.7", "v1.0.0-x.7.z.92", "v0.0.0-20250130180140-a8830bbe58fc", "v3.1.4-rc.1"}
+var versions = []string{"v1.0.0", "v0.0.0", "v1.2.3", "v2.0.0", "v10.20.30", "v19.0.1", "v100.0.0", "v20.1.0", "v9.9.9", "v1.0.0-alpha", "v1.0.0-alpha.1", "v1.0.0-0.3.7", "v1.0.0-x.7.z.92", "v0.0.0-20250130180140-a8830bbe58fc", "v3.1.4-rc.1"}
 
 func genReqs(t *rapid.T, label string) []Req {
 	n := rapid.IntRange(0, 4).Draw(t, label)
@@ -209,7 +227,7 @@ func genReqs(t *rapid.T, label string) []Req {
 		if m := semver.Major(ver); m != "v0" && m != "v1" && rapid.Bool().Draw(t, "suffix") {
 			p += "@" + m
 		}
-		out = append(out, Req{Name: name, Path: project.CleanPath(p), Version: ver})
+		out = append(out, Req{Name: name, Path: refCleanPath(p), Version: ver})
 	}
 	return out
 }
